@@ -146,6 +146,40 @@ func calmNode(ec *eCase, name string) bool {
 	return sinks <= 1
 }
 
+// terminalNode: code without HALT and without navigation whose loads cannot fail: running it ends the session.
+func terminalNode(ec *eCase, code []byte) bool {
+	b := code
+	for len(b) >= 2 {
+		s, rest, err, p := decodeStep(b)
+		if err != nil || p != nil {
+			return false
+		}
+		gi, ok := parseGInstr(s)
+		if !ok {
+			return false
+		}
+		switch gi.Op {
+		case "HALT", "MOVE", "CATCH", "CROAK", "INCMP", "RELOAD", "MSINK":
+			return false
+		case "LOAD":
+			have := false
+			for _, r := range ec.exts {
+				if r.sym == gi.A {
+					have = true
+					if r.fail || r.status != 0 || len(r.set) > 0 || len(r.reset) > 0 || (gi.N > 0 && len(r.content) > int(gi.N)) {
+						return false
+					}
+				}
+			}
+			if !have {
+				return false
+			}
+		}
+		b = rest
+	}
+	return len(b) == 0
+}
+
 func appHas(ec *eCase, ops ...string) bool {
 	for _, code := range ec.nodes {
 		b := code
@@ -374,6 +408,13 @@ func engineOracles(c *Ctx, ec *eCase, recs []reqRec) {
 					} else if r.f == "ok" && !flagBit(prev.flags, 6) && !strings.HasPrefix(string(r.out), "invalid input: '"+string(in)+"'") {
 						c.Fail("C03", "nomatch-no-message", fmt.Sprintf("%s: no INCMP matches but the page does not start with the invalid-input message: %q", where, trunc(string(r.out), 60)))
 					}
+				} else if code, have := ec.nodes[t]; have && ended && !flagBit(prev.flags, 6) && ec.wf && terminalNode(ec, code) && r.f == "ok" {
+					// the target ends the session: its own page is what the client gets, not the catch node's
+					if tp, okT := tblLookup(ec.tpls, r.lang, t); okT && !strings.Contains(tp, "{{") && ec.out == 0 {
+						if !strings.HasPrefix(string(r.out), tp) {
+							c.Fail("C03", "first-match", fmt.Sprintf("%s: first matching INCMP targets the terminal node %q but the page delivered is %q", where, t, trunc(string(r.out), 60)))
+						}
+					}
 				} else if !ended {
 					// instructions after the INCMP block run after the move and may navigate themselves
 				} else if code, have := ec.nodes[t]; have && simpleNode(code) && !flagBit(prev.flags, 6) && r.cont {
@@ -385,6 +426,13 @@ func engineOracles(c *Ctx, ec *eCase, recs []reqRec) {
 				} else if t == ">" && !flagBit(prev.flags, 6) {
 					if strings.Join(prev.path, "/") != strings.Join(r.path, "/") || r.idx != prev.idx+1 {
 						c.Fail("C04", "move-table", fmt.Sprintf("%s: '>' from %v idx %d gave %v idx %d", where, prev.path, prev.idx, r.path, r.idx))
+					}
+				} else if t == "<" && prev.idx == 0 && !flagBit(prev.flags, 6) && ended && ec.wf && calmNode(ec, "_catch") {
+					// "previous" on the first page is an index error: the input counts as unmatched
+					if len(r.path) == 0 || r.path[len(r.path)-1] != "_catch" {
+						c.Fail("C03", "previous-on-first-page-not-catch", fmt.Sprintf("%s: '<' matched on page 0 of %v but the session is at %v (cont=%v)", where, prev.path, r.path, r.cont))
+					} else if r.f == "ok" && !strings.HasPrefix(string(r.out), "invalid input: '"+string(in)+"'") {
+						c.Fail("C03", "nomatch-no-message", fmt.Sprintf("%s: '<' on page 0 but the page does not start with the invalid-input message: %q", where, trunc(string(r.out), 60)))
 					}
 				} else if t == "<" && prev.idx > 0 && !flagBit(prev.flags, 6) {
 					if strings.Join(prev.path, "/") != strings.Join(r.path, "/") || r.idx != prev.idx-1 {
